@@ -240,30 +240,57 @@ def r3_parser(run, F):
     run.ob("R3-MINUS-FOLDING", "otherwise Unary Negative", ok2, F.where(u, mu), "everything else becomes Unary{Negative}")
 
 
+def _prim_limit(prim, which):
+    bits = {"i8": 8, "i16": 16, "i32": 32, "i64": 64, "i128": 128, "u8": 8, "u16": 16, "u32": 32, "u64": 64, "u128": 128}.get(prim)
+    if bits is None:
+        return None
+    if prim.startswith("i"):
+        return -(1 << (bits - 1)) if which == "MIN" else (1 << (bits - 1)) - 1
+    return 0 if which == "MIN" else (1 << bits) - 1
+
+
+def _limit_value(body):
+    """Numeric value of `<T>::MIN as i128`, `<T>::MAX`, or an integer literal; (value, text)."""
+    body = hirq.unwrap_trivial(body)
+    if body.get("k") == "Cast":
+        body = hirq.unwrap_trivial(body["e"])
+    if body.get("k") == "Lit" and isinstance(body.get("v"), int):
+        return body["v"], str(body["v"])
+    mo = re.search(r"impl (\w+)>::(MIN|MAX)", body.get("res") or "")
+    if mo:
+        return _prim_limit(mo.group(1), mo.group(2)), "%s::%s" % (mo.group(1), mo.group(2))
+    return None, "?"
+
+
 def r4_limits(run, F):
+    """The value table of min_i128 / max_u128, row by row: the value each integer-like variant gets (from its own arm or from
+    the default arm) equals the limit of the reviewed primitive type; the shape of the match is free."""
     for fn, kind in (("alpha::value_type::ValueType::min_i128", "MIN"), ("alpha::value_type::ValueType::max_u128", "MAX")):
         b = F.body(fn)
-        m = hirq.find_match(b, min_arms=5)
-        seen = set()
+        m = hirq.find_match(b, min_arms=2)
+        rows = {}
+        default = None
         for a in m["arms"]:
             for alt in hirq.pat_alts(a["pat"]):
                 if hirq.is_catchall(alt):
-                    v = [x["v"] for x in hirq.lits(a["body"], "int")]
-                    run.ob("R4-LIMITS", "%s|_" % kind, v == [0], F.where(b, a), "non-integer types have limit 0")
+                    default = a
                     continue
-                vn = hirq.pat_key(alt).split("::")[-1]
-                body = hirq.unwrap_trivial(a["body"])
-                prim = None
-                which = None
-                if body.get("k") == "Cast":
-                    mo = re.search(r"impl (\w+)>::(MIN|MAX)", body["e"].get("res") or "")
-                    if mo:
-                        prim, which = mo.group(1), mo.group(2)
-                seen.add(vn)
-                run.ob("R4-LIMITS", "%s|%s" % (kind, vn), prim == LIMITS.get(vn) and which == kind, F.where(b, a),
-                       "%s of %s must be %s::%s, found %s::%s" % (kind.lower(), vn, LIMITS.get(vn), kind, prim, which),
-                       sample={"variant": vn, "found": "%s::%s" % (prim, which)})
-        run.ob("R4-LIMITS", "%s|covers" % kind, seen == set(LIMITS), F.where(b), "rows: %s" % sorted(seen))
+                rows.setdefault(hirq.pat_key(alt).split("::")[-1], a)
+        run.require(default is not None or set(LIMITS) <= set(rows), "%s: neither a default arm nor a row per integer type" % fn)
+        if default is not None:
+            v, txt = _limit_value(default["body"])
+            run.ob("R4-LIMITS", "%s|_" % kind, v == 0, F.where(b, default), "non-integer types have limit 0 (found %s)" % txt)
+        for vn in sorted(LIMITS):
+            a = rows.get(vn, default)
+            v, txt = _limit_value(a["body"])
+            want = _prim_limit(LIMITS[vn], kind)
+            run.ob("R4-LIMITS", "%s|%s" % (kind, vn), v == want, F.where(b, a),
+                   "%s of %s must be %s::%s = %s, found %s%s" % (kind.lower(), vn, LIMITS[vn], kind, want, txt, "" if vn in rows else " (default arm)"),
+                   sample={"variant": vn, "found": txt})
+        extra = sorted(set(rows) - set(LIMITS))
+        for vn in extra:
+            v, txt = _limit_value(rows[vn]["body"])
+            run.ob("R4-LIMITS", "%s|%s" % (kind, vn), v == 0, F.where(b, rows[vn]), "%s is not an integer-like type; its limit must be 0, found %s" % (vn, txt))
 
 
 def r5_linter(run, F):
